@@ -1,5 +1,5 @@
 """Source of MANIFEST.json (bin/mkmanifest)."""
-HOOK_COMMITS = ['40f6828af68cf8e37d02b4b886997a2471b94304', '3325b20b558a4a8c127cbb77bf01e82940ae3896']
+HOOK_COMMITS = ['a0e31689d71f0b6a9fcc4b2cc54f64a3d495494e', '40f6828af68cf8e37d02b4b886997a2471b94304', '3325b20b558a4a8c127cbb77bf01e82940ae3896']
 NOTES = ('Every check: translators regenerate coq/gen from /repo, Properties_<id>.v is rebuilt with coqc (full .vo) and its '
          'Print Assumptions output audited, the implementation is rebuilt from /repo\'s working tree in a scratch directory, '
          'the extracted model and the extracted specification oracle are run against it. See DESIGN.md.')
@@ -134,6 +134,20 @@ CLAIMS = {
           'the previous holder was running towards its single remaining operation. Trusted: Coq kernel, extraction, ROBSD_VERIF hook (verif.h + points in step.c), scheduler, /proc wchan.',
   'technique': 'Coq invariant proof over all schedules of a lock-protected read-truncate-write transition system + refutation witness without the lock + hook-driven schedule correspondence with '
                'real processes + extracted serialisability oracle',
+ },
+
+ 'C03': {
+  'text': 'Coq theorems (closed under the global context): step_next equals the literal specification (last recorded non-skipped step if it failed / is in flight / is end, '
+          'else the following one, failure when only skipped steps are recorded) for EVERY row list; for every schedule of synchronous steps with arbitrary exit codes, every skip set and '
+          'every crash point between two step-file writes - also across repeated crashes and resumes (inductive reachability) - the resume point never lies beyond a step that did not complete '
+          'and no successfully completed step other than end lies at or beyond it; every file the sequential orchestrator can leave has the shape the report relies on (C05). '
+          'Tied to the code by running the real step_next of util.sh (bash + real robsd-step) on generated step files and by end-to-end canvas runs killed (SIGKILL of the session) before the '
+          'first record / while a step runs / right after a completion record and resumed with canvas -r, once or twice.',
+  'note': 'PARTIAL in the tie: bash stands in for ksh, robsd-wait/logname/sendmail/chflags are stand-ins, the abstract step file (ascending rows) is what C01 proves robsd-step keeps; a crash INSIDE one '
+          'robsd-step -W is outside the quantifier; the loop model covers synchronous steps (parallel ones: C04). Trusted: Coq kernel, extraction, harness. No translator: the shell functions are tied '
+          'by correspondence only.',
+  'technique': 'Coq proof (invariant "good" preserved by the orchestrator loop, inductive reachability over crash/resume histories, reflection of the boolean oracle) + differential correspondence of step_next and '
+               'of killed-and-resumed real canvas invocations + extracted oracle on observed resume points and executed steps',
  },
 }
 NOT_APPLICABLE = {p: PENDING for p in ['C%02d' % i for i in range(1, 21)] if p not in CLAIMS}
